@@ -305,6 +305,27 @@ def streamConnect (c : Conn) (soError : Int) : Conn :=
                         pollout := if error < 0 || c.writeQ.isEmpty then false else c.pollout }
       if error < 0 then flushWrites c ECANCELED else c
 
+/-- `uv__stream_connect` up to and including the call of the user's callback (stream.c:1246-1283): the request is
+detached and POLLOUT is stopped *before* the callback runs.  Returns the delivered status (none: nothing delivered). -/
+def connPre (c : Conn) (soError : Int) : Conn × Option Int :=
+  if c.closing then (c, none) else
+  match c.connectReq with
+  | none => (c, none)
+  | some req =>
+    let (error, c) := if c.delayedError != 0 then (c.delayedError, { c with delayedError := 0 })
+                      else (soError, c)
+    if error == EINPROGRESS then (c, none)
+    else
+      ({ c with connectReq := none, fed := false, cbs := c.cbs ++ [(req, error)],
+                pollout := if error < 0 || c.writeQ.isEmpty then false else c.pollout }, some error)
+
+/-- the rest of `uv__stream_connect` after the callback returned (stream.c:1285-1291): nothing if the callback
+closed the handle; on error the write queue (including writes queued by the callback) is flushed -/
+def connPost (c : Conn) (delivered : Option Int) : Conn :=
+  match delivered with
+  | none => c
+  | some error => if c.closing then c else if error < 0 then flushWrites c ECANCELED else c
+
 /-- uv_write while connecting just queues -/
 def queueWrite (c : Conn) (w : Nat) : Conn := { c with writeQ := c.writeQ ++ [w] }
 
